@@ -243,6 +243,7 @@ def compare(W, o, st_cols, st_rows, pid=None):
     if bad:
         return bad
     if pid == 'C12' and len(st_rows) >= 1:
+        ev_before = np.asarray(o.view(np.ndarray)).tobytes()
         # statistics of the sample in this state = their definitions on the recorded events present, by name and position
         with warnings.catch_warnings():
             warnings.simplefilter('ignore')
@@ -252,15 +253,22 @@ def compare(W, o, st_cols, st_rows, pid=None):
                 n = len(vals)
                 defs = {'mean': float(np.sum(vals) / n),
                         'median': float(srt[n // 2] if n % 2 else (srt[n // 2 - 1] + srt[n // 2]) / 2.0)}
+                if np.all(vals > 0):
+                    lg = np.log(vals.astype(np.float64))
+                    defs['gmean'] = float(np.exp(np.sum(lg) / n))
+                    defs['gstd'] = float(np.exp(np.sqrt(np.sum((lg - np.sum(lg) / n) ** 2) / n)))
                 for stat, want in defs.items():
                     for spelled in (j, NAMES[ch - 1]):
                         got = float(getattr(FlowCal.stats, stat)(o, spelled))
-                        if abs(got - want) > 1e-12 * max(1.0, abs(want)):
+                        if abs(got - want) > (1e-9 if stat in ('gmean', 'gstd') else 1e-12) * max(1.0, abs(want)):
                             return [('stats', '%s of column %r: %r, definition on the events present %r' % (stat, spelled, got, want))]
             allm = np.asarray(FlowCal.stats.mean(o), dtype=float)
             per = np.array([float(FlowCal.stats.mean(o, j)) for j in range(len(st_cols))])
             if allm.shape != per.shape or not np.array_equal(allm, per):
                 return [('stats', 'mean of all channels %r differs from the per-channel answers %r' % (allm.tolist(), per.tolist()))]
+            FlowCal.stats.gstd(o) if len(st_cols) and all(np.all(W.expected[(c, u)][[r - 1 for r in st_rows]] > 0) for c, u in st_cols) else None
+            if np.asarray(o.view(np.ndarray)).tobytes() != ev_before:
+                return [('stats', 'taking statistics changed the events of the sample')]
     if pid == 'C19':
         with warnings.catch_warnings():
             warnings.simplefilter('ignore')
